@@ -4,7 +4,31 @@ use crate::model::frame;
 use crate::model::synth::*;
 use crate::refz;
 
+/// offset-code histogram per block of what the compressor makes of the graded-copies data kind
+pub fn graded() {
+    use crate::gen::data::DataSpec;
+    for (len, a) in [(131072u32, 0u16), (131072, 5), (60000, 9), (262144, 2), (131072, 8)] {
+        let d = DataSpec { kind: 10, len, seed: 7, a, b: 40 }.render();
+        let f = ruzstd::encoding::compress_to_vec(&d[..], ruzstd::encoding::CompressionLevel::Fastest);
+        let info = crate::model::frame::walk(&f, &Default::default()).unwrap();
+        for (bi, b) in info.blocks.iter().enumerate() {
+            if let Some(q) = &b.seq {
+                let mut h = [0u32; 32];
+                for s in &q.seqs {
+                    h[(31 - (s.offset + 3).leading_zeros()) as usize] += 1;
+                }
+                println!("len {len} a {a} block {bi} type {} nseq {} of_mode {} of_log {} hist {:?}", b.btype, q.nseq, q.modes[1], q.logs[1], &h[..20]);
+            } else {
+                println!("len {len} a {a} block {bi} type {} (no sequences)", b.btype);
+            }
+        }
+    }
+}
+
 pub fn run(what: &str) {
+    if what == "graded" {
+        return graded();
+    }
     match what {
         "dict-beyond" => {
             for seed in 0..6u32 {
